@@ -211,6 +211,45 @@ def unit_names(part=0, parts=1):
     return u
 
 
+def unit_type_real(case):
+    """`type`: the real parse_all_types with the real front-ends on concrete files: it lists exactly the (type, command code)
+    pairs under which the file's bytes decode strictly - established independently by decoding with every candidate"""
+    Mn = MAIN()
+    from tpmstream.spec import all_types
+    from tpmstream.spec.commands import CommandResponseStream, Response
+    from tpmstream.spec.structures.constants import TPM_CC
+    import tpmstream.common.error as E
+
+    cases = {
+        "hex-spaced-word": (Mn.Hex, b"00 00 01 44"), "hex-plain-word": (Mn.Hex, b"00000144"), "hex-newline-8-bytes": (Mn.Hex, b"00 00 00 00\n00 00 00 2a\n"),
+        "binary-word": (Mn.Binary, bytes.fromhex("00000144")), "binary-one-byte": (Mn.Binary, b"\x01"), "binary-startup-command": (Mn.Binary, bytes.fromhex("80010000000c000001440000")),
+        "hex-startup-response": (Mn.Hex, b"8001 0000000a\t00000000"), "binary-digest": (Mn.Binary, bytes.fromhex("0002aabb")), "binary-empty": (Mn.Binary, b""),
+    }
+    fmt, data = cases[case]
+    u = UnitResult(f"C19/TYPE-REAL/{case}")
+    u.functions = ["tpmstream.__main__:parse_all_types", "tpmstream.__main__:find_type"]
+    want = []
+    for t in all_types:
+        if t is CommandResponseStream or t.__name__.startswith("TPMU"):
+            continue
+        for cc in (TPM_CC if t is Response else (None,)):
+            try:
+                list(fmt.marshal(tpm_type=t, buffer=data, command_code=cc, abort_on_error=True))
+                want.append((t.__name__, None if cc is None else int(cc)))
+            except (E.InputStreamBytesDepletedError, E.InputStreamSuperfluousBytesError, E.ConstraintViolatedError):
+                pass
+    try:
+        got = [(type(c.object).__name__ if not isinstance(c.object, Response) else "Response", None if cc is None else int(cc)) for c, cc in Mn.parse_all_types(fmt, data)]
+        detail = f"{len(got)} listed, {len(want)} decode strictly; missing {[w for w in want if w not in got][:4]}, extra {[g for g in got if g not in want][:4]}"
+        ok = got == want
+    except Exception as e:  # noqa
+        ok, detail = False, f"parse_all_types raised {type(e).__name__}: {e}"
+    _ob(u, f"C19/TYPE-REAL/{case}/lists-exactly-the-types-that-decode-strictly", ok, detail, site="__main__.py:parse_all_types")
+    return u
+
+
+TYPE_REAL_CASES = ["hex-spaced-word", "hex-plain-word", "hex-newline-8-bytes", "binary-word", "binary-one-byte", "binary-startup-command", "hex-startup-response", "binary-digest", "binary-empty"]
+
 _CORPUS = {}
 
 
@@ -491,7 +530,7 @@ def run(tier, seed, only=None):
     rep.trusted_base = ["pyvc's reading of Python", "argparse, sys.exit, difflib, file objects: not modelled (not claimed)"]
     rep.assumptions = ["the library calls are stubs here: their behaviour is C01-C15"]
     rep.replayer = replayer
-    jobs = [(unit_convert, ())] + [(unit_names, (i, 12)) for i in range(12)] + [(unit_examples, (i, 8)) for i in range(8)] + [(unit_parse_all_types, ()), (unit_small, ())]
+    jobs = [(unit_convert, ())] + [(unit_names, (i, 12)) for i in range(12)] + [(unit_examples, (i, 8)) for i in range(8)] + [(unit_type_real, (c,)) for c in TYPE_REAL_CASES] + [(unit_parse_all_types, ()), (unit_small, ())]
     if only:
         jobs = [j for j in jobs if only in repr(j)]
     rep.add(run_units(jobs))
